@@ -1484,6 +1484,23 @@ pub fn run(cx: &mut Ctx) {
             }
         }
     }
+    // budgets far above one block (a large MTU, the `udp` limit of 64000): a body larger than the budget
+    // must still be served block-wise (at most 1024-byte blocks), and a too-large request answered 4.13
+    for &m in &[1500usize, 2100, 3000, 4200, 5000, 20000, 64000] {
+        for (si, shape) in shapes.iter().enumerate().take(2) {
+            let body = body_of(&mut rng, 2 * m + 77 + si);
+            let mut sess = Session::new(m, 60000);
+            run_download(cx, &Download { shape, ep: 1, m, body, resp_opts: vec![], first_szx: None, reduce_at: None, followup_toks: vec![] }, &mut sess, false);
+            let mut sess = Session::new(m, 60000);
+            let o = sess.step(Op::Req(1, ReqShape { code: 2, ..shape.clone() }.spec(7, None, None, &vec![5u8; m + 10])));
+            let line = sess.emit(cx);
+            let b1 = o.resp.as_ref().and_then(|r| first_opt(r, 27)).and_then(|b| parse_bv(&b));
+            let ok = o.outcome == Outcome::Ok(true) && o.resp.as_ref().map(|r| u8::from(r.header.code)) == Some(0x8D) && b1.is_some();
+            if !ok {
+                cx.oracle_fail("C09", &line, &format!("request with {} payload bytes (budget {}) and no Block1 was not answered 4.13 with a Block1 hint: {}", m + 10, m, o.outcome.token()));
+            }
+        }
+    }
     // a key whose transfer has completed asks for a later block again; the reply has grown
     for shape in &shapes {
         for &(m, szx) in &[(64usize, 1u8), (88, 2), (100, 2), (128, 2), (160, 3), (300, 4), (1152, 6)] {
